@@ -305,6 +305,7 @@ class Check:
         self.notes = []
         self._distinct = set()
         self.keep_dir = os.path.join(EVIDENCE, "replay", pid)
+        shutil.rmtree(self.keep_dir, ignore_errors=True)     # replay artefacts of earlier runs
 
     def add_tlc(self, name, r, exhaustive=None):
         self.cov["states"] += r.distinct
